@@ -69,6 +69,11 @@ def module_io(ctx, mod, md):
     """-> (driver lines, expected: name -> array or None)"""
     q, n = ctx.q, ctx.n
     loc = dict(ctx.cap.locals.get(FUNC_OF.get(mod, ''), {}))
+    if mod == 'R2' and 'matrix' not in loc:      # the assembled system under another local name: the (2n, 2n) array
+        n_ = ctx.q.nphi
+        mats = [v for v in loc.values() if isinstance(v, np.ndarray) and v.shape == (2 * n_, 2 * n_)]
+        if len(mats) == 1:
+            loc['matrix'] = mats[0]
     extra = {}
     rng = ctx.rng
     if mod == 'Sigma':
@@ -191,7 +196,13 @@ def module_io(ctx, mod, md):
         elif mod == 'R2' and re.match(r'^eq\d_(lhs|rhs)$', base) and 'matrix' in loc:
             k = int(base[2]) - 1
             sol = np.concatenate((q.X20, q.Y20))
-            e = (loc['matrix'] @ sol)[k * n:(k + 1) * n] if base.endswith('lhs') else loc['right_hand_side'][k * n:(k + 1) * n]
+            rhs_ = loc.get('right_hand_side')
+            if rhs_ is None:      # the local was renamed: the right-hand side is the 2n-vector the solution maps to
+                cands = [v for v in loc.values() if isinstance(v, np.ndarray) and v.shape == (2 * n,) and not np.array_equal(v, sol)]
+                lhs_ = loc['matrix'] @ sol
+                cands = [v for v in cands if np.max(np.abs(v - lhs_)) <= 1e-6 * (1 + np.max(np.abs(lhs_)))]
+                rhs_ = cands[0] if cands else None
+            e = (loc['matrix'] @ sol)[k * n:(k + 1) * n] if base.endswith('lhs') else (None if rhs_ is None else rhs_[k * n:(k + 1) * n])
         else:
             m = re.match(r'^(.*?)_(\d+)$', base)
             v = None
